@@ -763,7 +763,17 @@ fn process_incoming_text_message<T: Read + Write>(
                             let stream = StreamContext::from(log, command, params);
                             match stream {
                                 Ok(stream) => {
-                                    if !stream.one_pass
+                                    if fc.collect_mode == CollectMode::OnePassStreams
+                                        && fc.drained_all_msgs > 0
+                                    {
+                                        // msgs have been drained already: a new stream cannot start at the first msg
+                                        websocket
+                                            .write_message(Message::Text(format!(
+                                                "err: {} failed as {} msgs have been released already. Create one_pass streams before 'resume'.",
+                                                command, fc.drained_all_msgs
+                                            )))
+                                            .unwrap(); // todo
+                                    } else if !stream.one_pass
                                         && fc.collect_mode == CollectMode::OnePassStreams
                                     {
                                         websocket
@@ -825,6 +835,17 @@ fn process_incoming_text_message<T: Read + Write>(
                         Some(fc) => {
                             // todo add check for !stream.one_pass
                             if let Some(pos) = fc.streams.iter().position(|x| x.id == id) {
+                                if fc.streams[pos].one_pass && command != "stop" {
+                                    // one_pass streams support no window changes, no search, no lookups:
+                                    // their messages are drained from all_msgs once sent
+                                    websocket
+                                        .write_message(Message::Text(format!(
+                                            "err: {} failed. stream_id {} is a one_pass stream!",
+                                            command, id
+                                        )))
+                                        .unwrap(); // todo
+                                    return;
+                                }
                                 match command {
                                     "stream_search" => {
                                         // search within the stream for all messages matching the filters:
